@@ -1620,6 +1620,53 @@ def check_loop_exit(E, f, lam, op):
                     return a['field']
         return None
 
+    def edge_allowed(b, si):
+        """(may this edge be taken once the flags have their final values?, does the branch depend on something else?)"""
+        atom, truth = sy.edge_truth(b, si)
+        fl = flag_of(atom)
+        if fl is None and atom is not None:
+            ft = E.flag_test(atom)
+            if ft is not None:
+                fl, truth = ft[0], (truth if ft[1] else (not truth))
+        if fl in fixed:
+            return truth == fixed[fl], False
+        if fl is None and atom is not None and len(b.succ) == 2 and None not in b.succ and b.cond:
+            c = helper_constant(atom)
+            if c is not None:
+                return truth == c, False
+            return True, True
+        return True, False
+
+    hc_memo = {}
+
+    def helper_constant(atom, depth=0):
+        """the loop is steered by the result of a helper of AsyncLoop.h (`while (data->runIteration(fcn))`): if, with the flags at
+        their final values, every return the helper can still reach yields the same boolean constant, the call is that constant"""
+        cf = E.inl.callee(atom) if atom is not None and atom.get('kind') in CALLS else None
+        if cf is None or depth > 3:
+            return None
+        if cf['id'] in hc_memo:
+            return hc_memo[cf['id']]
+        hc_memo[cf['id']] = None
+        gh = tu.cfg(cf)
+        seen, todo, vals = {gh.entry}, [gh.entry], set()
+        while todo:
+            x = todo.pop()
+            blk = gh.blocks[x]
+            for e_ in blk.el:
+                n_ = tu.node(e_[1]) if e_[0] == 'S' else None
+                if n_ is not None and n_.get('kind') == 'ReturnStmt':
+                    vals.add(sy.const_bool(tu.kids(n_)[0]) if tu.kids(n_) else None)
+            for si, t in enumerate(blk.succ):
+                if t is None or t in seen:
+                    continue
+                ok_, _o = edge_allowed(blk, si)
+                if ok_:
+                    seen.add(t)
+                    todo.append(t)
+        hc_memo[cf['id']] = vals.pop() if len(vals) == 1 and None not in vals else None
+        return hc_memo[cf['id']]
+
     def find_cycle(g):
         succ = {}
         opaque = set()      # blocks whose branch does not depend on the flags at all
@@ -1628,15 +1675,10 @@ def check_loop_exit(E, f, lam, op):
             for si, t in enumerate(b.succ):
                 if t is None:
                     continue
-                atom, truth = sy.edge_truth(b, si)
-                fl = flag_of(atom)
-                if fl is None and atom is not None:
-                    ft = E.flag_test(atom)
-                    if ft is not None:
-                        fl, truth = ft[0], (truth if ft[1] else (not truth))
-                if fl in fixed and truth != fixed[fl]:
+                ok_, op_ = edge_allowed(b, si)
+                if not ok_:
                     continue
-                if len(b.succ) == 2 and None not in b.succ and b.cond and fl is None:
+                if op_:
                     opaque.add(b.id)
                 outs.append(t)
             succ[b.id] = outs
